@@ -1515,3 +1515,464 @@ class Piecewise(object):
             if msg:
                 return asg, msg
         return None
+
+
+# ======================================================================== Mag: array domain
+class MagVal(object):
+    """Abstract array/scalar: symbolic shape, entrywise magnitude bound (a Rat over configuration symbols),
+    optional numeric interval for real entries, optional deterministic symbolic value for scalars,
+    `exact` = the bound is the supremum over all draws/inputs (range-exact flag of every operation so far)."""
+
+    def __init__(self, shape=(), kind='real', bound=None, lo=None, hi=None, hi_open=False, exact=True, value=None,
+                 offset=None, free=False, wrapped=None, note=''):
+        self.shape = tuple(shape)
+        self.kind = kind              # 'real' | 'imag' | 'complex'
+        self.bound = bound            # Rat or None (unbounded / free input)
+        self.lo, self.hi, self.hi_open = lo, hi, hi_open
+        self.exact = exact
+        self.value = value            # Rat: deterministic scalar (configuration expression)
+        self.offset = offset if offset is not None else Rat.const(0)
+        self.free = free              # ranges over arbitrary reals (student-supplied input)
+        self.wrapped = wrapped        # 'MathArray' when wrapped
+        self.note = note
+
+    def clone(self, **kw):
+        d = dict(shape=self.shape, kind=self.kind, bound=self.bound, lo=self.lo, hi=self.hi, hi_open=self.hi_open,
+                 exact=self.exact, value=self.value, offset=self.offset, free=self.free, wrapped=self.wrapped, note=self.note)
+        d.update(kw)
+        return MagVal(**d)
+
+    def text(self, renv=None):
+        sh = '(%s)' % ', '.join(s.text() for s in self.shape)
+        b = 'unbounded' if self.bound is None else '|x| <= %s%s' % (self.bound.text(), '' if self.exact else ' (not tight)')
+        off = '' if self.offset.is_zero() else ' around %s' % self.offset.text()
+        return 'shape %s, %s, %s%s' % (sh, self.kind, b, off)
+
+
+KIND_MUL = {('real', 'real'): 'real', ('real', 'imag'): 'imag', ('imag', 'real'): 'imag', ('imag', 'imag'): 'real'}
+UNIFORM_01 = {'numpy.random.rand', 'numpy.random.random_sample', 'numpy.random.random', 'numpy.random.ranf',
+              'numpy.random.sample', 'random.random'}
+
+
+class MagEval(object):
+    """Evaluates terms in the Mag domain.  `facts` gives the signs of configuration symbols;
+    `dim_subst` maps terms (e.g. len(args)) to Rats established by path guards."""
+
+    def __init__(self, facts, dim_subst=None, renv=None):
+        if 'pi' not in facts.syms:
+            facts = facts.copy().add(SymFact('pi', Interval(Fraction(314159, 100000), Fraction(314160, 100000))))
+        self.facts = facts
+        self.renv = renv or RatEnv()
+        self.dim_subst = dict(dim_subst or {})
+        self.draws = 0
+
+    def dim(self, t):
+        if t in self.dim_subst:
+            return self.dim_subst[t]
+        try:
+            return self.renv.rat(t)
+        except Unsupported:
+            raise Unsupported('array dimension `%s` is not a configuration expression' % show(t))
+
+    def shape_of(self, t):
+        if t[0] in ('tuple', 'list'):
+            return tuple(self.dim(x) for x in t[1])
+        return (self.dim(t),)
+
+    def scalar_value(self, v):
+        """|v| as a Rat for a deterministic scalar, using sign facts."""
+        if v.value is None:
+            raise Unsupported('scalar without a symbolic value')
+        s = self.facts.sign(v.value)
+        if s in ('pos', 'nonneg', 'zero'):
+            return v.value
+        if s in ('neg', 'nonpos'):
+            return -v.value
+        raise Unsupported('sign of `%s` is unknown' % v.value.text())
+
+    def ev(self, t):
+        k = t[0]
+        if k == 'num':
+            c = Rat.const(t[1])
+            return MagVal((), 'real', Rat.const(abs(t[1])), t[1], t[1], value=c)
+        if k == 'imag':
+            return MagVal((), 'imag', Rat.const(abs(t[1])), value=None, note='const')
+        if k == 'ext' and t[1] in ('numpy.pi', 'math.pi'):
+            p = Rat.sym('pi')
+            return MagVal((), 'real', p, value=p)
+        if sym_name(t) is not None:
+            v = Rat.sym(sym_name(t))
+            s = self.facts.sign(v)
+            b = v if s in ('pos', 'nonneg') else -v if s in ('neg', 'nonpos') else None
+            return MagVal((), 'real', b, value=v)
+        if k == 'neg':
+            a = self.ev(t[1])
+            return a.clone(value=-a.value if a.value is not None else None,
+                           lo=-a.hi if a.hi is not None else None, hi=-a.lo if a.lo is not None else None, hi_open=False,
+                           offset=-a.offset)
+        if k in ('add', 'sub'):
+            return self._add(self.ev(t[1]), self.ev(t[2]) if k == 'add' else self.ev(('neg', t[2])), t)
+        if k == 'mul':
+            return self._mul(self.ev(t[1]), self.ev(t[2]), t)
+        if k == 'div':
+            a, b = self.ev(t[1]), self.ev(t[2])
+            if b.shape != () or b.value is None or b.kind != 'real':
+                raise Unsupported('division by a non-scalar or non-deterministic value in `%s`' % show(t))
+            if b.value.is_zero():
+                raise Unsupported('division by zero in `%s`' % show(t))
+            inv = MagVal((), 'real', None, value=Rat.const(1) / b.value)
+            if self.facts.sign(b.value) not in ('pos', 'neg'):
+                raise Unsupported('divisor `%s` may vanish' % b.value.text())
+            return self._mul(a, inv, t)
+        if k == 'call':
+            return self._call(t)
+        if k == 'index' and t[2][0] == 'num':
+            a = self.ev(t[1])
+            if not a.shape:
+                raise Unsupported('indexing a scalar in `%s`' % show(t))
+            return a.clone(shape=a.shape[1:], wrapped=None)
+        raise Unsupported('no array model for `%s`' % show(t))
+
+    def _same_shape(self, a, b, t):
+        if a.shape == () or b.shape == ():
+            return a.shape or b.shape
+        if len(a.shape) != len(b.shape) or any(not (x == y) for x, y in zip(a.shape, b.shape)):
+            raise Unsupported('shapes %s and %s in `%s` are not provably equal (broadcasting is outside the model)'
+                              % ([s.text() for s in a.shape], [s.text() for s in b.shape], show(t)))
+        return a.shape
+
+    def _add(self, a, b, t):
+        shape = self._same_shape(a, b, t)
+        if a.value is not None and b.value is not None:
+            v = a.value + b.value
+            return MagVal((), 'real', None, value=v) if not v.is_const() else self.ev(('num', v.const_value()))
+        if a.free or b.free:
+            return MagVal(shape, 'real' if a.kind == b.kind == 'real' else 'complex', None, free=True, exact=True)
+        # array + deterministic scalar: numeric constants shift the interval, symbolic ones become the offset
+        for x, y in ((a, b), (b, a)):
+            if y.value is not None and y.shape == ():
+                if y.value.is_const() and x.lo is not None and x.kind == 'real':
+                    c = y.value.const_value()
+                    lo, hi = x.lo + c, x.hi + c
+                    return x.clone(shape=shape, lo=lo, hi=hi, bound=Rat.const(max(abs(lo), abs(hi))))
+                return x.clone(shape=shape, offset=x.offset + y.value)
+        kind = a.kind if a.kind == b.kind else 'complex'
+        if a.bound is None or b.bound is None:
+            return MagVal(shape, kind, None, exact=a.exact and b.exact)
+        lo = a.lo + b.lo if None not in (a.lo, b.lo) else None
+        hi = a.hi + b.hi if None not in (a.hi, b.hi) else None
+        return MagVal(shape, kind, a.bound + b.bound, lo, hi, a.hi_open or b.hi_open, a.exact and b.exact,
+                      offset=a.offset + b.offset)
+
+    def _mul(self, a, b, t):
+        shape = self._same_shape(a, b, t)
+        if a.value is not None and b.value is not None:
+            return MagVal((), 'real', None, value=a.value * b.value) if not (a.value * b.value).is_const() \
+                else self.ev(('num', (a.value * b.value).const_value()))
+        kind = KIND_MUL.get((a.kind, b.kind), 'complex')
+        if a.free or b.free:
+            return MagVal(shape, kind, None, free=True)
+        for x, y in ((a, b), (b, a)):
+            if y.value is not None and y.shape == ():         # scale by a deterministic scalar
+                if not x.offset.is_zero():
+                    raise Unsupported('scaling a shifted value in `%s`' % show(t))
+                m = self.scalar_value(y)
+                lo = hi = None
+                if x.lo is not None and y.value.is_const():
+                    c = y.value.const_value()
+                    lo, hi = sorted((x.lo * c, x.hi * c))
+                return x.clone(shape=shape, kind=kind, bound=x.bound * m if x.bound is not None else None, lo=lo, hi=hi,
+                               hi_open=x.hi_open and (y.value.is_const() and y.value.const_value() > 0))
+            if y.note == 'const' and y.shape == () and y.kind == 'imag':      # imaginary constant such as 2j
+                return x.clone(shape=shape, kind=kind, bound=x.bound * y.bound if x.bound is not None else None, lo=None, hi=None)
+        if not (a.offset.is_zero() and b.offset.is_zero()):
+            raise Unsupported('product of shifted values in `%s`' % show(t))
+        bound = a.bound * b.bound if None not in (a.bound, b.bound) else None
+        return MagVal(shape, kind, bound, exact=a.exact and b.exact)
+
+    def _call(self, t):
+        name, args, kwargs = t[1], t[2], dict(t[3])
+        if name in UNIFORM_01:
+            if name in ('numpy.random.rand',):
+                shape = tuple(self.dim(a) for a in args)
+            else:
+                shape = self.shape_of(args[0]) if args else ()
+                if kwargs.get('size') is not None:
+                    shape = self.shape_of(kwargs['size'])
+            self.draws += 1
+            return MagVal(shape, 'real', Rat.const(1), Fraction(0), Fraction(1), True, exact=True)
+        if name in ('numpy.sin', 'numpy.cos') and len(args) == 1:
+            a = self.ev(args[0])
+            if a.kind != 'real':
+                raise Unsupported('%s of a non-real argument is unbounded' % name)
+            return MagVal(a.shape, 'real', Rat.const(1), Fraction(-1), Fraction(1), False, exact=True)
+        if name == 'numpy.exp' and len(args) == 1:
+            a = self.ev(args[0])
+            if a.kind == 'imag':
+                return MagVal(a.shape, 'complex', Rat.const(1), exact=True, note='unit modulus')
+            raise Unsupported('exp of a %s argument has no bounded modulus in the model' % a.kind)
+        if name == 'numpy.array' and len(args) == 1:
+            return MagVal((self.dim(('call', 'len', (args[0],), ())),), 'real', None, free=True)
+        if name == 'numpy.tile' and len(args) == 2:
+            a = self.ev(args[0])
+            reps = self.shape_of(args[1])
+            base = (Rat.const(1),) * (len(reps) - len(a.shape)) + a.shape
+            if len(base) != len(reps):
+                raise Unsupported('tile with fewer repetitions than axes')
+            return a.clone(shape=tuple(x * y for x, y in zip(reps, base)))
+        if name == 'numpy.sum' and len(args) >= 1:
+            a = self.ev(args[0])
+            ax = kwargs.get('axis', args[1] if len(args) > 1 else None)
+            if ax is None or ax[0] != 'num':
+                raise Unsupported('np.sum without a constant axis')
+            i = int(ax[1])
+            if not (0 <= i < len(a.shape)):
+                raise Unsupported('np.sum over axis %d of a %d-axis array' % (i, len(a.shape)))
+            n = a.shape[i]
+            if not a.offset.is_zero():
+                raise Unsupported('sum of a shifted array')
+            return a.clone(shape=a.shape[:i] + a.shape[i + 1:], bound=a.bound * n if a.bound is not None else None,
+                           lo=None, hi=None)
+        if name.split('.')[-1] == 'MathArray' and len(args) == 1:
+            return self.ev(args[0]).clone(wrapped='MathArray')
+        raise Unsupported('no model for %s(...)' % name)
+
+
+# ============================================================ Alg: free algebra of matrix words
+class AlgVal(object):
+    """Either a matrix: linear combination {word: Rat} of words over one matrix variable W, where a word is
+    ('W', t, c, d) (t: transposed, c: conjugated, d: diag(diag(.)) applied) or ('I', n) (identity of size n);
+    or a scalar (Rat over the symbols tr = trace(W), trc = conj(trace(W)) and configuration symbols)."""
+
+    def __init__(self, matrix=None, scalar=None, other=None):
+        self.matrix = {w: c for w, c in (matrix or {}).items() if not c.is_zero()} if matrix is not None else None
+        self.scalar = scalar
+        self.other = other          # e.g. ('vector', ...) for shapes outside the algebra
+
+    @property
+    def is_matrix(self):
+        return self.matrix is not None
+
+    def map_words(self, f):
+        out = {}
+        for w, c in self.matrix.items():
+            w2 = f(w)
+            out[w2] = out.get(w2, Rat.const(0)) + c
+        return AlgVal(matrix=out)
+
+    def T(self):
+        return self.map_words(lambda w: w if w[0] == 'I' or w[3] else ('W', 1 - w[1], w[2], 0))
+
+    def C(self):
+        for w, c in self.matrix.items():
+            if not c.is_const():
+                if c.symbols() & {'tr', 'trc'}:
+                    raise Unsupported('conjugate of a trace-dependent coefficient')
+        return self.map_words(lambda w: w if w[0] == 'I' else ('W', w[1], 1 - w[2], w[3]))
+
+    def D(self):
+        return self.map_words(lambda w: w if w[0] == 'I' else ('W', 0, w[2], 1))
+
+    def add(self, o, sign=1):
+        out = dict(self.matrix)
+        for w, c in o.matrix.items():
+            out[w] = out.get(w, Rat.const(0)) + (c if sign > 0 else -c)
+        return AlgVal(matrix=out)
+
+    def scale(self, s):
+        return AlgVal(matrix={w: c * s for w, c in self.matrix.items()})
+
+    def equals(self, o, sign=1):
+        keys = set(self.matrix) | set(o.matrix)
+        zero = Rat.const(0)
+        return all(self.matrix.get(k, zero) == (o.matrix.get(k, zero) if sign > 0 else -o.matrix.get(k, zero)) for k in keys)
+
+    def is_zero(self):
+        return not self.matrix
+
+    def trace(self):
+        tot = Rat.const(0)
+        for w, c in self.matrix.items():
+            if w[0] == 'I':
+                tot = tot + c * w[1]
+            else:
+                tot = tot + c * Rat.sym('trc' if w[2] else 'tr')
+        return tot
+
+    def text(self):
+        if self.scalar is not None:
+            return self.scalar.text()
+        if self.matrix is None:
+            return str(self.other)
+
+        def word(w):
+            if w[0] == 'I':
+                return 'I_%s' % w[1].text()
+            s = 'W'
+            if w[1]:
+                s = s + '^T'
+            if w[2]:
+                s = 'conj(%s)' % s
+            if w[3]:
+                s = 'diag(%s)' % s
+            return s
+        parts = []
+        for w, c in sorted(self.matrix.items(), key=lambda wc: str(wc[0])):
+            ct = c.text()
+            parts.append(word(w) if ct == '1' else '-' + word(w) if ct == '-1' else '(%s)*%s' % (ct, word(w)))
+        return ' + '.join(parts).replace('+ -', '- ') or '0'
+
+
+TRANSPOSE_NAMES = {'transpose'}
+CONJ_NAMES = {'conj', 'conjugate'}
+
+
+class AlgEval(object):
+    def __init__(self, base_term, renv=None):
+        self.base = base_term
+        self.renv = renv or RatEnv()
+
+    def ev(self, t):
+        if t == self.base:
+            return AlgVal(matrix={('W', 0, 0, 0): Rat.const(1)})
+        k = t[0]
+        if k == 'meth' and not t[3] and not t[4] and t[2] in TRANSPOSE_NAMES | CONJ_NAMES | {'trace'}:
+            a = self.ev(t[1])
+            return self._unary(t[2], a, t)
+        if k == 'attr' and t[2] == 'T':
+            return self._unary('transpose', self.ev(t[1]), t)
+        if k == 'call' and t[1].startswith('numpy.') and len(t[2]) == 1 and not t[3]:
+            fn = t[1].split('.')[-1]
+            if fn in TRANSPOSE_NAMES | CONJ_NAMES | {'trace'}:
+                return self._unary(fn, self.ev(t[2][0]), t)
+            if fn == 'diag':
+                inner = t[2][0]
+                if inner[0] == 'call' and inner[1] == 'numpy.diag' and len(inner[2]) == 1:
+                    a = self.ev(inner[2][0])
+                    if a.is_matrix:
+                        return a.D()
+                a = self.ev(inner)
+                if a.is_matrix:
+                    return AlgVal(other=('vector', 'the diagonal of %s as a 1-D array' % a.text()))
+                raise Unsupported('np.diag of `%s`' % show(inner))
+            if fn in ('eye', 'identity'):
+                return AlgVal(matrix={('I', self.renv.rat(t[2][0])): Rat.const(1)})
+            if fn in ('triu', 'tril'):
+                a = self.ev(t[2][0])
+                return AlgVal(other=(fn, a))
+        if k in ('add', 'sub'):
+            a, b = self.ev(t[1]), self.ev(t[2])
+            if a.is_matrix and b.is_matrix:
+                return a.add(b, 1 if k == 'add' else -1)
+            if a.scalar is not None and b.scalar is not None:
+                return AlgVal(scalar=a.scalar + b.scalar if k == 'add' else a.scalar - b.scalar)
+            raise Unsupported('`%s` mixes matrices and scalars' % show(t))
+        if k == 'neg':
+            a = self.ev(t[1])
+            return a.scale(Rat.const(-1)) if a.is_matrix else AlgVal(scalar=-a.scalar)
+        if k in ('mul', 'div'):
+            a, b = self.ev(t[1]), self.ev(t[2])
+            if k == 'div':
+                if b.scalar is None or b.scalar.is_zero():
+                    raise Unsupported('division by a matrix in `%s`' % show(t))
+                inv = Rat.const(1) / b.scalar
+                return a.scale(inv) if a.is_matrix else AlgVal(scalar=a.scalar * inv)
+            if a.is_matrix and b.scalar is not None:
+                return a.scale(b.scalar)
+            if b.is_matrix and a.scalar is not None:
+                return b.scale(a.scalar)
+            if a.scalar is not None and b.scalar is not None:
+                return AlgVal(scalar=a.scalar * b.scalar)
+            raise Unsupported('matrix product in `%s`' % show(t))
+        try:
+            return AlgVal(scalar=self.renv.rat(t))
+        except Unsupported:
+            raise Unsupported('`%s` is outside the matrix-word algebra' % show(t))
+
+    def _unary(self, fn, a, t):
+        if fn == 'trace':
+            if not a.is_matrix:
+                raise Unsupported('trace of a non-matrix')
+            return AlgVal(scalar=a.trace())
+        if not a.is_matrix:
+            raise Unsupported('%s of a non-matrix in `%s`' % (fn, show(t)))
+        return a.T() if fn in TRANSPOSE_NAMES else a.C()
+
+
+# ================================================================ Enum: finite option domains
+class _Unknown(object):
+    def __repr__(self):
+        return '?'
+
+
+UNK = _Unknown()
+
+
+def enum_eval(t, asg):
+    """Value of a term under an assignment of configuration keys (python values); UNK when data-dependent."""
+    k = t[0]
+    if k in ('str', 'bool'):
+        return t[1]
+    if k == 'num':
+        return int(t[1]) if t[1].denominator == 1 else t[1]
+    if k == 'none':
+        return None
+    if k == 'cfg':
+        return asg.get(t[1], UNK)
+    if k in ('list', 'tuple'):
+        vals = [enum_eval(x, asg) for x in t[1]]
+        return UNK if any(v is UNK for v in vals) else vals
+    if k == 'not':
+        v = enum_eval(t[1], asg)
+        return UNK if v is UNK else (not v)
+    if k in ('and', 'or'):
+        vals = [enum_eval(x, asg) for x in t[1]]
+        if k == 'and':
+            if any(v is not UNK and not v for v in vals):
+                return False
+            return UNK if any(v is UNK for v in vals) else True
+        if any(v is not UNK and v for v in vals):
+            return True
+        return UNK if any(v is UNK for v in vals) else False
+    if k == 'cmp':
+        a, b = enum_eval(t[2], asg), enum_eval(t[3], asg)
+        if a is UNK or b is UNK:
+            return UNK
+        try:
+            return {'==': lambda: a == b and type(a) is type(b) or (a == b and not isinstance(a, bool) and not isinstance(b, bool)),
+                    '!=': lambda: not (a == b), '<': lambda: a < b, '<=': lambda: a <= b,
+                    'in': lambda: any(a == x and (x is not None or a is None) for x in b) if a is not None else any(x is None for x in b),
+                    'notin': lambda: not (any(a == x for x in b) if a is not None else any(x is None for x in b)),
+                    'is': lambda: a is b, 'isnot': lambda: a is not b}[t[1]]()
+        except TypeError:
+            return UNK
+    if k in ('mod', 'add', 'sub', 'mul', 'floordiv'):
+        a, b = enum_eval(t[1], asg), enum_eval(t[2], asg)
+        if a is UNK or b is UNK or isinstance(a, (str, type(None))) or isinstance(b, (str, type(None))):
+            return UNK
+        try:
+            return {'mod': lambda: a % b, 'add': lambda: a + b, 'sub': lambda: a - b, 'mul': lambda: a * b,
+                    'floordiv': lambda: a // b}[k]()
+        except ZeroDivisionError:
+            return UNK
+    return UNK
+
+
+def enum_run(paths, asg):
+    """Paths (from sym_exec) that are not excluded under the assignment: [(path, definite?)]."""
+    out = []
+    for p in paths:
+        vals = [enum_eval(g, asg) for g in p.conds]
+        if any(v is not UNK and not v for v in vals):
+            continue
+        out.append((p, not any(v is UNK for v in vals)))
+    return out
+
+
+def enum_store(path, asg):
+    """Assignment after the path's writes to self.config (values that are not constants become UNK)."""
+    new = dict(asg)
+    for k, v in path.store.items():
+        if k[0] == 'cfg':
+            new[k[1]] = enum_eval(v, asg)
+    return new
